@@ -74,7 +74,7 @@ def c01_slices(tier):
         KeyChoices="{7}", CoeffChoices="{3,0}" if th else "{3}", RandChoices="{1}", Msgs=LONGMSG, MaxExtra="1", ListOrders='{"asc","desc"}',
         DomH3="{4,9}", DomH1="{3,8}", DomH2="{5}", EMIT="TRUE")))
     # S: size sweep: every signer-set size 2..N (t = n = |S|, one behaviour per size) in Toy<257>
-    sizes = "(2..66) \\cup {100,127,128,129}" if th else "(2..34) \\cup {63,64,65}"
+    sizes = "(2..66) \\cup {100,127,128,129}" if th else "(2..12) \\cup {16,17,31,32,33,63,64,65}"
     sl.append(dict(name="S_size_sweep", module="C01", invariants=C01_INV, timeout=3000, consts=consts(
         257, Shapes="{<<n,n>> : n \\in %s}" % sizes, IdSets="{1..n : n \\in %s}" % sizes, KeyChoices="{200}",
         CoeffChoices="{3}", RandChoices="{1}", Msgs="{<<104,105>>}", MaxExtra="0", DomH3="{77}", DomH1="{5}",
@@ -96,6 +96,7 @@ def _c01_defaults(sl):
     for s in sl:
         if s.get("module") == "C01":
             s["consts"].setdefault("ListOrders", '{"asc"}')
+            s["consts"].setdefault("BatchAtEnd", "FALSE")
     return sl
 
 
@@ -421,6 +422,10 @@ def c15_slices(tier):
     # C: 2-byte scalars in a field with q > 256 (share encoding occupies both bytes)
     sl.append(dict(name="C_q257", module="C15", invariants=["InvDerivation", "Emit"], consts=consts(
         257, ShareChoices="{1,255,256}", RandChoices="{0,255}", Calls="{<<1>>, <<2>>}", DomH3="{0,256,3}", EMIT="TRUE")))
+    # S: batch-size sweep up to the u8 maximum
+    sizes = "{<<k>> : k \\in (5..70) \\cup {127,128,129,200,254,255}}" if th else "{<<k>> : k \\in {8,16,17,32,33,64,65,128,255}} \\cup {<<33,1,2>>}"
+    sl.append(dict(name="S_batch_sizes", module="C15", invariants=["InvDerivation", "Emit"], consts=consts(
+        257, ShareChoices="{200}", RandChoices="{1}", Calls=sizes, DomH3="{77}", EMIT="TRUE")))
     return sl
 
 
@@ -440,6 +445,11 @@ def c16_slices(tier):
     sl.append(dict(name="B_t5", module="C16", invariants=["InvBatchOk", "Emit"], consts=consts(
         11, Probes='{"dealer","dkg1","rdkg1"}', Vals="{0,1,10}" if not th else "{0,1,4,10}", NZVals="{7}", MaxZeros="1",
         Shapes="{<<5,5>>, <<6,4>>}", DomHDKG="{4}", EMIT="TRUE")))
+    # batch blinders: one per item, also in large batches (C19's module): +1/-1 pairs 1, 32 and 64 positions apart are
+    # rejected under pairwise different blinders
+    sl.append(dict(name="C19_D_large_batches", module="C19", invariants=C19_INV, consts=consts(
+        251, Keys="{2}", NonceChoices="{3}", MaxItems="0", Kinds='{"ok"}', Blinders="{1}", BigPlans=big_batch_plans(tier),
+        DomH2="{7}", EMIT="TRUE")))
     return sl
 
 
@@ -451,7 +461,7 @@ C16_FATAL = {"split:shares", "split:commit", "split:vk", "split:ok", "dkg1:coeff
              "*:rng_unused", "*:rng_overrun", "*:panic"}
 
 # ------------------------------------------------------------------------ C17
-C17_INV = ["InvRegen", "InvParams", "InvHonest", "InvFaulty", "InvFaultyShare", "Emit"]
+C17_INV = ["InvRegen", "InvParams", "InvHonest", "InvFaulty", "InvFaultyShare", "InvFew", "Emit"]
 
 
 def c17_slices(tier):
@@ -461,41 +471,52 @@ def c17_slices(tier):
     sl = []
     sl.append(dict(name="A_faults", module="C17", invariants=C17_INV, consts=consts(
         7, Shapes="{<<3,2>>}", IdSets="{{2,3,5}}", MaxExtra="1", SeedChoices="{5,300}",
-        Faults='{"none","seed","comm","share","fixed"}', FixedAlphas="{0,1,4}", DomHR="{0,2,4}" if th else "{2,4}", **base)))
+        Faults='{"none","seed","comm","share","fixed","few"}', SeedFaults='{"last","append","append0","trunc","empty"}',
+        FixedAlphas="{0,1,4}", DomHR="{0,2,4}" if th else "{2,4}", **base)))
     sl.append(dict(name="B_all_randomizers", module="C17", invariants=C17_INV, consts=consts(
-        7, Shapes="{<<2,2>>}", IdSets="{{3,5}}", MaxExtra="0", SeedChoices="{5}", Faults='{"none","seed","fixed"}',
+        7, Shapes="{<<2,2>>}", IdSets="{{3,5}}", MaxExtra="0", SeedChoices="{5}", Faults='{"none","seed","fixed"}', SeedFaults='{"last","append"}',
         FixedAlphas=ZQ(7), DomHR=ZQ(7), **dict(base, DomH2=ZQ(7) if th else "{0,3,6}"))))
     sl.append(dict(name="C_shape_s4", module="C17", invariants=C17_INV, consts=consts(
         11, Shapes="{<<4,3>>}", IdSets="{{1,2,3,4}, {2,5,7,10}}", MaxExtra="1", SeedChoices="{9}",
-        Faults='{"none","seed","comm","share"}', FixedAlphas="{1}", DomHR="{6}",
+        Faults='{"none","seed","comm","share","few"}', SeedFaults='{"last","trunc"}', FixedAlphas="{1}", DomHR="{6}",
         **dict(base, DomH3="{4}", DomH1="{3}", DomH2="{5}", KeyChoices="{7}", CoeffChoices="{3}"))))
     sl += life_slices(tier, ops=None if th else [["rrsign", "refresh_dkg", "rrsign"], ["refresh_dealer", "rrsign", "repair", "rrsign"]])
     return sl
 
 
 C17_FATAL = {"rr_new:ok", "rr_regen:ok", "rr_regen:alpha", "rr_regen:alphaG", "rr_regen:vk2", "rr_new:vk2", "rr_sign:ok",
-             "rr_sign_fixed:ok", "aggregate:ok", "aggregate:culprits", "verify:ok", "*:oracle_miss", "*:panic"}
+             "rr_sign_fixed:ok", "aggregate:ok", "aggregate:culprits", "aggregate:structural_same", "verify:ok", "*:oracle_miss",
+             "*:panic"}
 
 # ------------------------------------------------------------------------ C19
 C19_INV = ["InvAccept", "InvSingles", "InvSoundness", "Emit"]
 
 
-def big_plan(n, bad):
-    """one batch of n items under key 1, the items at positions `bad` have an altered response"""
-    kd = "[j \\in 1..%d |-> IF j \\in %s THEN \"z\" ELSE \"ok\"]" % (n, tla_set(bad))
-    return "[n |-> %d, ks |-> [j \\in 1..%d |-> 1], kd |-> %s, ds |-> [j \\in 1..%d |-> 1]]" % (n, n, kd, n)
+def big_plan(n, bad, minus=()):
+    """one batch of n items under key 1, the items at positions `bad` have an altered response:
+    z + 1, or z - 1 at the positions `minus` (a +1/-1 pair cancels exactly when its two blinders coincide)"""
+    kd = "[j \\in 1..%d |-> IF j \\in %s THEN \"z\" ELSE \"ok\"]" % (n, tla_set(list(bad) + list(minus)))
+    ds = "[j \\in 1..%d |-> IF j \\in %s THEN -1 ELSE 1]" % (n, tla_set(list(minus)))
+    return "[n |-> %d, ks |-> [j \\in 1..%d |-> 1], kd |-> %s, ds |-> %s]" % (n, n, kd, ds)
+
+
+def big_batch_plans(tier):
+    th = tier == "thorough"
+    # an invalid item at the first, a middle, the 32nd/33rd and the last position; cancelling pairs that are
+    # adjacent, 32 and 64 positions apart
+    plans = [big_plan(33, [1]), big_plan(40, [20]), big_plan(40, [40]), big_plan(65, [32]), big_plan(65, [33]), big_plan(64, []),
+             big_plan(33, [1, 33]), big_plan(65, [1], [65]), big_plan(66, [2], [66]), big_plan(40, [3], [35]), big_plan(34, [17], [18])]
+    if th:
+        plans += [big_plan(65, [j]) for j in (1, 2, 31, 34, 64, 65)]
+        plans += [big_plan(130, [1], [129]), big_plan(130, [2], [66]), big_plan(129, [64], [128]), big_plan(100, [10], [26])]
+    return "{" + ", ".join(plans) + "}"
 
 
 def c19_slices(tier):
     th = tier == "thorough"
     sl = []
-    # large batches (up to 65 items): an invalid item at the first, a middle, the 32nd/33rd and the last position
-    plans = [big_plan(33, [1]), big_plan(40, [20]), big_plan(40, [40]), big_plan(65, [32]), big_plan(65, [33]), big_plan(64, []),
-             big_plan(33, [1, 33])]
-    if th:
-        plans += [big_plan(65, [j]) for j in (1, 2, 31, 34, 64, 65)]
     sl.append(dict(name="D_large_batches", module="C19", invariants=C19_INV, consts=consts(
-        251, Keys="{2}", NonceChoices="{3}", MaxItems="0", Kinds='{"ok"}', Blinders="{1}", BigPlans="{" + ", ".join(plans) + "}",
+        251, Keys="{2}", NonceChoices="{3}", MaxItems="0", Kinds='{"ok"}', Blinders="{1}", BigPlans=big_batch_plans(tier),
         DomH2="{7}", EMIT="TRUE")))
     sl.append(dict(name="A_positions_kinds", module="C19", invariants=C19_INV, timeout=3000, consts=consts(
         7 if th else 5, Keys="{2,3}", NonceChoices="{3}", MaxItems="3", Kinds='{"ok","z","R","msg","key"}',
@@ -503,6 +524,10 @@ def c19_slices(tier):
     # complementary +d / -d pairs under every pair of blinders (accepted exactly when the blinders repeat)
     sl.append(dict(name="C_cancelling_pairs", module="C19", invariants=C19_INV, consts=consts(
         7, Keys="{2}", NonceChoices="{3}", MaxItems="2", Kinds='{"z","R"}', Blinders=ZQ(7), DomH2="{2}", BigPlans="{}", EMIT="TRUE")))
+    # threshold signatures as batch items (C01's module with the batch step at the end)
+    sl += _c01_defaults([dict(name="T_threshold_items", module="C01", invariants=C01_INV, consts=consts(
+        7, Shapes="{<<3,2>>}", IdSets="{{2,3,5}}", KeyChoices="{3}", CoeffChoices="{5}", RandChoices="{1}", Msgs=MSG2,
+        MaxExtra="1", BatchAtEnd="TRUE", DomH3="{2,5}", DomH1="{5}", DomH2="{3}", EMIT="TRUE"))])
     sl.append(dict(name="B_four_items", module="C19", invariants=C19_INV, consts=consts(
         5, Keys="{2}", NonceChoices="{3}", MaxItems="4", Kinds='{"ok","z"}', Blinders="{0,1,4}" if not th else ZQ(5),
         DomH2="{2}", BigPlans="{}", EMIT="TRUE")))
